@@ -98,6 +98,18 @@ CHECKS["C19"] = ("exploration",
     "For polynomials of degree <= 6 the truncation error of both stencils is known in closed form, so every weight of the stencil is pinned; "
     "smooth functions against the classical remainder bound.",
     TRUST, "DESIGN.md §4 C19")
+CHECKS["C09"] = ("exploration",
+    "TLC model-checks the explicit-stack Simpson design (SimpsonStack); recorded runs of the eight routines are judged by TLC (Val_C09) "
+    "against closed-form integrals written in Quad.tla and against the textbook Simpson recursion run by TLC",
+    "E1: every accept/split verdict tree to depth 3 (thorough 4): pending + accepted panels tile the interval, each frame carries its own "
+    "panel's estimate. E3: seeded integrands with closed forms; result within KQ*tol, Err for bad intervals/tolerances, abscissae inside, "
+    "Romberg exact on degree <= 2n-1, Simpson evaluations <= 2x textbook + 8.",
+    TRUST, "DESIGN.md §4 C09")
+CHECKS["C10"] = ("exploration",
+    "the shipped tables are compiled from the working tree and every row is checked by TLC (QuadTables): expansion count, domain, "
+    "positivity, all moments 0..2n-1 against closed forms, tanh-sinh pairs against the double-exponential formula",
+    "Exhaustive over the finite data (251 Gaussian rows, 7 tanh-sinh levels, ~11,000 pairs).",
+    TRUST + " Moments to relative 2e-10 (precision of the shipped digits on the largest rows).", "DESIGN.md §4 C10")
 
 NOT_YET = {}
 
